@@ -280,6 +280,44 @@ theorem ts_module_roundtrip (F : IntFormat) (hF : F.Faithful) (tg : Target) (u :
     · rw [g, (ts_option_reads tg u).2.1]
     · rw [g, (ts_option_reads tg u).2.2.1]
 
+/-- the other direction, every module: an integer that a module accepts (from signed or unsigned input) is
+exactly what the module writes for the value it built — so distinct accepted integers denote distinct values;
+an accepted `u64` above `i64::MAX` (possible in the nanosecond modules only: years 2262 … 2554) is a value
+the module then refuses to write -/
+theorem ts_roundtrip_from (tg : Target) (u : TsUnit) (v : Int) (dt : NaiveDT) :
+    (isI64 v → deserialize tg u (.i64 v) = .ok (.ok dt) → serialize tg u dt = .ok (.ok (.i64 v))) ∧
+    (isU64 v → deserialize tg u (.u64 v) = .ok (.ok dt) →
+      serialize tg u dt = .ok (if v ≤ 9223372036854775807 then .ok (.i64 v) else .err)) := by
+  obtain ⟨ti, tu, _⟩ := ts_rejects tg u v
+  have fin : NDTInv dt ∧ NonLeap dt ∧ instNs dt = v * nsPer u →
+      serialize tg u dt = .ok ((if isI64 v then SR.ok v else SR.err).map .i64) := by
+    intro ⟨c1, c2, c3⟩
+    rw [(ts_exact tg u dt c1 c2).1]
+    have e : tsOf u dt = v := by unfold tsOf; rw [c3]; cases u <;> (simp only [nsPer]; omega)
+    unfold mustWrite; rw [e]
+  constructor
+  · intro hv hd
+    obtain ⟨r, r1, _, r3⟩ := ti hv
+    rw [r1] at hd; injection hd with hd
+    rw [fin (r3 dt hd), if_pos hv]; rfl
+  · intro hv hd
+    obtain ⟨r, r1, _, r3⟩ := tu hv
+    rw [r1] at hd; injection hd with hd
+    rw [fin (r3 dt hd)]
+    unfold isU64 at hv
+    by_cases hm : v ≤ 9223372036854775807
+    · rw [if_pos (by unfold isI64; omega), if_pos hm]; rfl
+    · rw [if_neg (by unfold isI64; omega), if_neg hm]; rfl
+
+/-- a leap second does not survive a timestamp (the property excepts it): 2015-06-30T23:59:60.5 is written as
+second 1435708799 / millisecond 1435708800500 and read back as 23:59:59 resp. 00:00:00.5 of the next day -/
+theorem leap_second_not_carried :
+    let dt : NaiveDT := ⟨dateOfYo 2015 181, ⟨86399, 1500000000⟩⟩
+    NDTInv dt ∧ ¬ NonLeap dt ∧
+    roundTrip binLike .utc .secs dt = .ok (.ok ⟨dateOfYo 2015 181, ⟨86399, 0⟩⟩) ∧
+    roundTrip jsonLike .naive .millis dt = .ok (.ok ⟨dateOfYo 2015 182, ⟨0, 500000000⟩⟩) := by
+  decide +kernel
+
 /-- both shapes of real formats satisfy the trusted behaviour as modelled: positional (`bincode`: the integer
 comes back signed) and self-describing (`serde_json`: a non-negative integer comes back unsigned, `Some(n)`
 and `n` share one text) -/
